@@ -205,13 +205,15 @@ impl Mirror {
         let dict_a = merged(&user);
         Mirror { dialect, synced: user.clone(), user, group_a: LintGroup::new_curated(dict_a.clone(), dialect), dict_a }
     }
-    /// candidate A: the dictionary at the last time the word count grew (kept with its LintGroup, so its
-    /// chunk cache has the same history as the API's); candidate B: the current user dictionary when it
-    /// differs.  Which one the API uses is for the model to say.
+    /// candidate A: the dictionary at the last time the user dictionary CHANGED (kept with its LintGroup, so
+    /// its chunk cache has the same history as the API's: that is when the API rebuilds its own); candidate
+    /// B: the current user dictionary should it ever differ (it cannot, as long as the mirror follows the
+    /// API's rule; kept so that a linter that is not re-synchronised shows up as "the model asks for a
+    /// dictionary the implementation does not lint with").  Which one the API uses is for the model to say.
     fn import_words(&mut self, ws: &[String]) {
-        let init = self.user.word_count();
+        let before = self.user.clone();
         self.user.extend_words(ws.iter().map(|w| (w.chars().collect::<Vec<char>>(), WordMetadata::default())));
-        if self.user.word_count() > init {
+        if self.user != before {
             self.synced = self.user.clone();
             self.dict_a = merged(&self.synced);
             self.group_a = LintGroup::new_curated(self.dict_a.clone(), self.dialect);
@@ -257,6 +259,23 @@ impl Mirror {
             out.push(Alt { words: wb, raw: vec![(l.clone(), h)] });
         }
         Ok(out)
+    }
+    /// monitor of the premise `ctx_ignores_dict` (C16_ignore_persistent): the context hash of each lint under
+    /// the current lint dictionary equals its context hash under a document parsed WITHOUT the user's words.
+    /// Returns (lints checked, description of the first lint whose hash differs).
+    fn ctx_dict_dependence(&self, text: &str, md: bool, raw: &[(CLint, u64)]) -> (u64, Option<String>) {
+        if raw.is_empty() || self.user.word_count() == 0 {
+            return (0, None);
+        }
+        let empty = merged(&MutableDictionary::new());
+        let Ok(hs) = guarded(|| {
+            let doc = make_doc(text, md, &empty);
+            raw.iter().map(|(l, _)| ctx_hash(l, &doc)).collect::<Vec<u64>>()
+        }) else {
+            return (0, None);
+        };
+        let bad = raw.iter().zip(&hs).find(|((_, h), h0)| h != *h0).map(|((l, _), _)| format!("{:?} at [{},{})", l.message, l.span.start, l.span.end));
+        (raw.len() as u64, bad)
     }
     /// raw lints from a LintGroup without history (for the "raw lints are a function" monitor)
     fn fresh_raw(&self, text: &str, md: bool, eff: &LintGroupConfig) -> Result<Vec<CLint>, String> {
@@ -453,6 +472,17 @@ impl<'a> Hist<'a> {
                 }
             }
         }
+        {
+            // monitor of the premise "the context of a lint does not depend on the user dictionary"
+            let (n, bad) = self.mirror.ctx_dict_dependence(text, md, &alts[0].raw);
+            if n > 0 {
+                self.rep.monitor("ctx_ignores_dict:checked", n);
+            }
+            if let Some(b) = bad {
+                self.rep.monitor("ctx_ignores_dict:VIOLATED", 1);
+                self.fail("context_depends_on_dictionary", format!("the ignore-context hash of lint {b} on {:?} ({}) differs between the document parsed with the user's words {:?} and without them: adding a word to the dictionary can bring an ignored lint back", text, if md { "Markdown" } else { "Plain" }, dict_words(&self.mirror.user)));
+            }
+        }
         let api = &mut self.api;
         let r = guarded(|| api.lint(text.to_string(), lang_of(md)));
         let case = format!("L {} | {} | {} | {}", md as u8, cps(&chars(text)), effstr, enc_alts(&alts, self.intern));
@@ -521,7 +551,7 @@ impl<'a> Hist<'a> {
             let h_now: Vec<u64> = alts.iter().filter_map(|a| a.raw.iter().find(|(l, _)| *l == inner).map(|(_, h)| *h)).collect();
             let changed = h_then.is_some() && !h_now.is_empty() && !h_now.contains(&h_then.unwrap());
             if changed && ev.contains(&"import_words") {
-                self.fail("ignored_lint_returned", format!("lint {:?} on {:?} was ignored and is reported again: its context hash changed after import_words (a word next to it became a dictionary word, and the context hashes the tokens' dictionary metadata); calls since the ignore: [{}]", inner.message, pt, ev.join(", ")));
+                self.fail("ignored_lint_returned", format!("lint {:?} on {:?} was ignored and is reported again: its context hash changed after import_words (the context depends on the user dictionary: a word next to the lint became a dictionary word); calls since the ignore: [{}]", inner.message, pt, ev.join(", ")));
             } else {
                 self.fail("ignored_lint_returned", format!("lint {:?} on {:?} was ignored and is reported again with {} context hash; calls since the ignore: [{}]", inner.message, pt, if changed { "a changed" } else { "an unchanged" }, ev.join(", ")));
             }
@@ -797,6 +827,7 @@ impl<'a> Hist<'a> {
                     let id = self.intern.id(word_id(w));
                     line.push_str(&format!(" {} {}", id, enc_str(w)));
                 }
+                let cfg_before = explicit_choices(&self.api.get_lint_config_as_json());
                 let api = &mut self.api;
                 let ws = words.clone();
                 if guarded(|| api.import_words(ws)).is_err() {
@@ -807,6 +838,12 @@ impl<'a> Hist<'a> {
                 }
                 self.rep.case(&line, "ok");
                 self.rep.eval();
+                // ---- oracle (C16_import_words_keeps_config on the real API): the rebuild of the LintGroup inside
+                // import_words keeps every explicit choice of the configuration ----
+                let cfg_after = explicit_choices(&self.api.get_lint_config_as_json());
+                if cfg_before.is_some() && cfg_after != cfg_before {
+                    self.fail("import_words_changed_config", format!("import_words({:?}) changed the explicit choices of get_lint_config_as_json ({} before, {} after)", words, cfg_before.as_ref().map(|m| m.len()).unwrap_or(0), cfg_after.as_ref().map(|m| m.len()).unwrap_or(0)));
+                }
                 self.mirror.import_words(words);
                 let after = {
                     let mut w = self.api.export_words();
@@ -832,11 +869,32 @@ impl<'a> Hist<'a> {
             }
             Op::WordsRoundtrip => self.oracle_words_roundtrip(),
             Op::SetConfig { json: j, bad } => {
+                let before_cfg = self.api.get_lint_config_as_json();
                 let r = self.api.set_lint_config_from_json(j.clone());
                 let case = if *bad { "SC !".to_string() } else { format!("SC {}", self.keys.cfgstring(j)) };
                 self.rep.case(&case, if r.is_ok() { "ok" } else { "err" });
                 self.rep.count(if *bad { "set_config:malformed" } else { "set_config:valid" });
                 self.note_event("set_config");
+                // ---- oracle (C16_set_config_replaces on the real API; the clause itself is C11's "rules the user
+                // has not mentioned take their curated defaults"): what get_lint_config_as_json reports as explicit
+                // choices afterwards is exactly what was set; a refused text changes nothing ----
+                let after = self.api.get_lint_config_as_json();
+                let explicit = explicit_choices;
+                match (r.is_ok(), explicit(j), explicit(&after)) {
+                    (true, Some(want), Some(got)) => {
+                        self.rep.eval();
+                        if want != got {
+                            let d: Vec<String> = got.iter().filter(|(k, v)| want.get(*k) != Some(*v)).map(|(k, v)| format!("{k}={v} kept")).chain(want.iter().filter(|(k, v)| got.get(*k) != Some(*v)).map(|(k, v)| format!("{k}={v} not taken"))).take(4).collect();
+                            self.fail("set_config_not_replaced", format!("after set_lint_config_from_json({}) get_lint_config_as_json reports other explicit choices than were set ({}): a rule left unset by the new configuration does not return to its default", if j.len() > 120 { "…" } else { j.as_str() }, d.join(", ")));
+                        }
+                    }
+                    (false, _, _) => {
+                        if after != before_cfg {
+                            self.fail("set_config_err_changed_config", "set_lint_config_from_json returned Err and changed the configuration".into());
+                        }
+                    }
+                    _ => {}
+                }
                 self.run_op(&Op::GetConfig);
             }
             Op::GetConfig => {
@@ -890,7 +948,7 @@ impl<'a> Hist<'a> {
             if mine != theirs {
                 let diff: Vec<String> = mine.iter().filter(|x| !theirs.contains(x)).chain(theirs.iter().filter(|x| !mine.contains(x))).map(|j| split_wlint(j).1).collect();
                 let why = if self.recased_since_growth {
-                    "the last import_words only respelt known words (same word count), so this linter was not re-synchronised"
+                    "the last import_words only respelt known words (same word count): was this linter re-synchronised?"
                 } else {
                     "no respelling-only import_words preceded"
                 };
@@ -899,6 +957,11 @@ impl<'a> Hist<'a> {
             }
         }
     }
+}
+
+/// the explicit (non-null) choices of a configuration JSON text
+fn explicit_choices(j: &str) -> Option<BTreeMap<String, bool>> {
+    serde_json::from_str::<BTreeMap<String, Option<bool>>>(j).ok().map(|m| m.into_iter().filter_map(|(k, v)| v.map(|b| (k, b))).collect())
 }
 
 fn hashes_of(export: &str) -> Vec<u64> {
@@ -1067,12 +1130,15 @@ const DENSE: &[&str] = &[
     "I could of done it,but  i did not.Then  i left .",
     "x teh cat. x teh cat.",
     "The 21th item and the 3nd item cost 5$ each, i think.",
+    "There is an an problem.",
+    "We think that teh first thing we did was was to walk along the long road that leads to the old house near the river where teh children of the village used to play every day before the big storm came and took the bridge away from us all.",
 ];
 const MD: &[&str] = &[
     "# An heading\n\nThere is an `problem` here.\n\n* item teh one\n* [a link](http://x.y) alot\n",
     "Some *emphasised an problem* text.\n\n> quoted teh text\n\n```\ncode teh block\n```\n",
     "There is an `problem` here.",
     "Hello [[wikilink]] teh end.\n\n1. first an item\n2. second  item\n",
+    "we waited with `baited breath` today",
 ];
 
 fn gen_text(r: &mut Rng) -> String {
@@ -1132,7 +1198,67 @@ fn gen_scenario(r: &mut Rng) -> (usize, Vec<Op>) {
     let dialect = r.below(4);
     let w = r.s(&["zorgle", "qwxzv", "grault", "blorpt", "harperism", "ünïcödé"]).to_string();
     let recase = |r: &mut Rng, w: &str| if r.chance(1, 2) { gen::capitalize(w) } else { w.to_uppercase() };
-    match r.below(4) {
+    match r.below(7) {
+        4 => {
+            // one linter serves plain text and Markdown: the same characters, tokenised differently (inline
+            // code / emphasis), must not share cached pattern lints (F11); the second-linter probe compares
+            // this linter, with its history, against a new one
+            let phrase = r.s(&["baited breath", "an problem", "could of", "alot of", "teh", "the the"]);
+            let text = match r.below(3) {
+                0 => format!("we waited with `{phrase}` today"),
+                1 => format!("We waited with `{phrase}` today. {}", gen::clean_sentence(r)),
+                _ => format!("we saw <b>{phrase}</b> and *{phrase}* today"),
+            };
+            let first_md = r.chance(1, 2);
+            let mut ops = vec![Op::Lint { text: text.clone(), md: first_md }, Op::Lint { text: text.clone(), md: !first_md }, Op::WordsRoundtrip];
+            if r.chance(1, 2) {
+                ops.push(Op::Lint { text, md: first_md });
+                ops.push(Op::WordsRoundtrip);
+            }
+            (dialect, ops)
+        }
+        5 => {
+            // a lint that encloses several others: a run-on sentence (more than 40 words: LongSentences spans
+            // it) with two to four misspelt or repeated words inside; ignoring the enclosing lint afterwards
+            let n = r.range(42, 56);
+            let mut ws: Vec<String> = (0..n).map(|_| r.s(gen::COMMON).to_string()).collect();
+            for _ in 0..r.range(2, 4) {
+                let i = r.range(3, n - 2);
+                ws[i] = if r.chance(1, 4) { format!("{} {}", ws[i], ws[i]) } else { r.s(gen::MISSPELT).to_string() };
+            }
+            let text = format!("{}. {}", gen::capitalize(&ws.join(" ")), gen::clean_sentence(r));
+            let mut ops = vec![];
+            if r.chance(2, 3) {
+                ops.push(Op::SetConfig { json: all_rules_json(true), bad: false });
+            }
+            ops.push(Op::Lint { text: text.clone(), md: false });
+            ops.push(Op::Ignore { lint: 0, text: None });
+            ops.push(Op::Lint { text, md: r.chance(1, 4) });
+            (dialect, ops)
+        }
+        6 => {
+            // set, then set again leaving a rule unset (null or absent): it must return to its default;
+            // a second linter given get_config must then lint alike
+            let rule = r.s(&["SpellCheck", "AnA", "RepeatedWords", "SentenceCapitalization", "Nope"]);
+            let text = r.s(DENSE).to_string();
+            let first = r.chance(1, 2);
+            let second = match r.below(3) {
+                0 => format!("{{\"{rule}\":null}}"),
+                1 => "{}".to_string(),
+                _ => "{\"LongSentences\":true}".to_string(),
+            };
+            let ops = vec![
+                Op::SetConfig { json: format!("{{\"{rule}\":{first}}}"), bad: false },
+                Op::Lint { text: text.clone(), md: false },
+                Op::SetConfig { json: second, bad: false },
+                Op::Lint { text: text.clone(), md: false },
+                Op::ImportWords { words: vec![w] },
+                Op::GetConfig,
+                Op::Lint { text, md: false },
+                Op::WordsRoundtrip,
+            ];
+            (dialect, ops)
+        }
         0 => {
             // a word, then another spelling of it, then export/import into a second linter
             let w2 = recase(r, &w);
